@@ -12,6 +12,7 @@ import rk as txrk
 import stepctl as txctl
 import stepctlgen as txgen
 import trunc as txtrunc
+import sweepsched as txsweep
 
 PRE = "import renormalizer\nimport numpy as np, scipy.linalg as sla, sys\nfrom renormalizer.model import Model, Op, basis as ba\n" \
       "from renormalizer.mps import Mps, Mpo, MpDm\nfrom renormalizer.utils import EvolveConfig, EvolveMethod, CompressConfig, CompressCriteria\n" \
@@ -134,6 +135,37 @@ REPROS = {
         "    e = np.linalg.norm(dense(a.evolve(mpo, t)) - ref); print(meth.name, solver, 'backward step t = -0.2: distance to exp(-iHt)psi', e)\n"
         "    if e > 1e-3: bad.append((meth.name, solver, e))\n"
         "sys.exit(1 if bad else 0)\n",
+    "krylov-large-step":
+        "import renormalizer\nimport numpy as np, scipy.linalg as sla, sys\nfrom renormalizer.model import Model, Op, basis as ba\nfrom renormalizer.mps import Mps, Mpo\n"
+        "from renormalizer.utils import EvolveConfig, EvolveMethod, CompressConfig, CompressCriteria\n"
+        "np.random.seed(2); nbas = 80\n"
+        "model = Model([ba.BasisHalfSpin('s'), ba.BasisSHO('v', 1.0, nbas)], [Op('sigma_z', 's', 0.5), Op('sigma_x', 's', 0.3), Op(r'b^\\dagger b', 'v', 1.0), Op(r'sigma_z b^\\dagger+b', ['s', 'v'], 0.8)])\n"
+        "mpo = Mpo(model); H = np.asarray(mpo.todense()); s = Mps.random(model, 0, 2, 1.0); s.normalize('mps_and_coeff'); psi = np.asarray(s.todense())*s.coeff; bad = []\n"
+        "for meth in (EvolveMethod.tdvp_ps, EvolveMethod.tdvp_ps2):\n"
+        "    for dt in (0.04, 2.0, 4.0):\n"
+        "        a = s.copy(); a.evolve_config = EvolveConfig(meth, ivp_solver='krylov'); a.compress_config = CompressConfig(CompressCriteria.fixed, max_bonddim=2)\n"
+        "        o = a.evolve(mpo, dt); e = np.linalg.norm(np.asarray(o.todense())*o.coeff - sla.expm(-1j*dt*H) @ psi)\n"
+        "        print(meth.name, 'dt', dt, 'dt*||H||', dt*np.linalg.norm(H, 2), 'distance to exp(-iHt)psi at full bond dimension', e)\n"
+        "        if not e < 1e-6: bad.append((meth.name, dt, e))\n"
+        "sys.exit(1 if bad else 0)\n",
+    "nonuniform-bond-limits":
+        "import renormalizer\nimport numpy as np, scipy.linalg as sla, sys\nfrom renormalizer.model import Model, Op, basis as ba\nfrom renormalizer.mps import Mps, Mpo\n"
+        "from renormalizer.utils import EvolveConfig, EvolveMethod, CompressConfig, CompressCriteria\n"
+        "np.random.seed(4); n = 6\n"
+        "basis = [ba.BasisHalfSpin(i) for i in range(n)]\n"
+        "model = Model(basis, [Op('X X', [i, i+1], 0.9) for i in range(n-1)] + [Op('Z Z', [i, i+1], 0.5) for i in range(n-1)] + [Op('Z', i, 0.2*(i+1)) for i in range(n)] + [Op('X', i, 0.4) for i in range(n)])\n"
+        "mpo = Mpo(model); H = np.asarray(mpo.todense()); bad = []\n"
+        "s = Mps.random(model, 0, 16).canonicalise().canonicalise(); s.normalize('mps_and_coeff')\n"
+        "for right in (False, True):\n"
+        "    for lims in ([1, 2, 4, 8, 4, 2, 1], [1, 2, 4, 3, 4, 2, 1]):\n"
+        "        a = s.copy()\n"
+        "        if right: a.ensure_right_canonical()\n"
+        "        psi = np.asarray(a.todense())*a.coeff\n"
+        "        a.evolve_config = EvolveConfig(EvolveMethod.tdvp_ps2); a.compress_config = CompressConfig(CompressCriteria.fixed, max_bonddim=64); a.compress_config.max_dims = np.array(lims)\n"
+        "        o = a.evolve(mpo, 0.1); bd = [int(x) for x in o.bond_dims]; e = np.linalg.norm(np.asarray(o.todense())*o.coeff - sla.expm(-0.1j*H) @ psi)\n"
+        "        print('start right-canonical' if right else 'start left-canonical', 'max_dims', lims, 'bond_dims', bd, 'error', e)\n"
+        "        if any(b > l for b, l in zip(bd, lims)) or (lims[3] == 8 and e > 1e-7): bad.append((right, lims, bd, e))\n"
+        "sys.exit(1 if bad else 0)\n",
     "adaptive-error-not-relative": PRE +
         "s = Mps.random(m, 1, 8).canonicalise().canonicalise(); psi = dense(s); ref = sla.expm(-0.4j*H) @ psi; errs = {}\n"
         "for c in (1.0, 1e-3):\n"
@@ -177,6 +209,10 @@ def classify(k, rec):
     if k.startswith("gauge/") and k.split("/")[1].startswith(("tdvp_vmf", "tdvp_mu_vmf", "cmf")) and \
             (k.split("/")[2] in ("regauged-left-flags", "regauged-right-flags", "added-raw", "operator-applied") or k.split("/")[2].startswith("complex-")):
         return "vmf-cmf-noncanonical-input"
+    if k.startswith("large-step/"):
+        return "krylov-large-step"
+    if k.startswith("nonuniform-limits/"):
+        return "nonuniform-bond-limits"
     if k.startswith("homogeneity/cmf_trapz") and rec.get("where") == "tensors":
         return "cmf-trapz-loses-norm"
     if k.startswith("homogeneity/"):
@@ -419,6 +455,13 @@ def run(ctx):
     except Exception as e:
         ctx.notes.append("translator tx/trunc.py failed: %r" % (e,))
         broken.append("translator tx/trunc.py")
+    try:
+        # which site index _update_mps hands to compute_m_trunc (shared with C08): regenerated for the tree under test
+        r_ = txsweep.main(common.REPO)
+        ctx.regen("Gen/SweepSched.v", r_[0] if isinstance(r_, tuple) else r_)
+    except Exception as e:
+        ctx.notes.append("translator tx/sweepsched.py failed: %r" % (e,))
+        broken.append("translator tx/sweepsched.py (site index handed to compute_m_trunc by _update_mps): %r" % (e,))
     ginfo = None
     try:
         text3, ginfo = txgen.main(common.REPO)
@@ -688,6 +731,8 @@ def run(ctx):
                 "tdrk-adaptive-callable-time-offset": "theorem C09_tdrk_offset_is_accepted_time / Model.Prop.rk_stages (stage Hamiltonian sampled at c_i*dt + t0) vs the recorded sample times, and the dense fixed-step reference",
                 "vmf-cmf-noncanonical-input": "oracle clause `any gauge, sufficient bond dimension` (mean-field TDVP on a non-canonical representation)",
                 "local-ode-solver-signed-step": "oracle clauses `exp(-iHt) for real t` (t < 0) and `result does not depend on the local integrator`; contract of the local ODE solve (t_span of the requested sign, returns y(t_end))",
+                "krylov-large-step": "oracle: projector splitting at full bond dimension with a large local dimension and dt*||H|| of 60-300 vs dense expm (Lanczos exponential beyond one block of vectors)",
+                "nonuniform-bond-limits": "theorems C09_ps2_trunc_bond_is_pair_bond / C09_dims_le_limit_ps2 and the oracle with per-bond limits (exactness at exact ranks, every bond within its own limit)",
                 "adaptive-error-not-relative": "theorem C09_error_measure_scale_invariant (generated error measure) and the homogeneity oracle: the accepted error must not depend on the norm of the state",
                 "cmf-trapz-loses-norm": "homogeneity oracle: evolve(c psi) = c evolve(psi) with the factor in the tensors (normalize=False)",
                 "input-object-reuse": "oracle clause `the result does not depend on how t is split into successive calls` (one input object re-used; its evolve_config must come back unchanged)",
